@@ -568,6 +568,10 @@ def extract(meta, harness_path, workdir, native=False):
         if sliced.count(old) != 1:
             raise ExtractionError('R-rewrite: %r occurs %d times (must be exactly once)' % (old, sliced.count(old)))
         sliced = sliced.replace(old, new); nrw += 1
+    # 'rewrite_all': the same, for every occurrence (also none): used for the C-equivalent respelling (&(x)->a->b)->c  ==>  (x)->a->b.c
+    # that works around CBMC 6.11 mis-evaluating the first spelling on a by-value transparent-union parameter
+    for old, new in meta.get('rewrite_all', []):
+        nrw += sliced.count(old); sliced = sliced.replace(old, new)
     fired['R-rewrite'] = nrw
     sliced, fired['R-trap'] = rule_trap(sliced)
     sliced, fired['R-ovl'] = rule_ovl(sliced)
